@@ -35,6 +35,25 @@ def opDefs (global : List Req) (op : Option (List Req)) : List Def :=
   | some rs => describe rs
   | none => describe global
 
+/-! the rule as the translator writes it (Gen/SecurityRule.lean is regenerated from operations.go on every run) -/
+inductive Src where
+  | operation   -- DescribeSecurityDefinition(*op.Security)
+  | global      -- DescribeSecurityDefinition(swagger.Security)
+deriving DecidableEq, Repr
+
+structure Rule where
+  condNotNil : Bool   -- the condition is `op.Security != nil` (false: `== nil`)
+  thenSrc : Src
+  elseSrc : Src
+deriving DecidableEq, Repr
+
+def pick (global : List Req) (op : Option (List Req)) : Src → List Def
+  | .operation => describe (op.getD [])
+  | .global => describe global
+
+def evalRule (r : Rule) (global : List Req) (op : Option (List Req)) : List Def :=
+  if op.isSome == r.condNotNil then pick global op r.thenSrc else pick global op r.elseSrc
+
 def scopesSuffix : Str := Names.w "Scopes"
 def dotScopes : Str := Names.w ".Scopes"
 
